@@ -6,11 +6,13 @@ import ProphyModel.Py
 import ProphyModel.PLayout
 import ProphyModel.Cpp
 import ProphyModel.Topo
+import ProphyModel.Expr
 import ProphyModel.Properties.Tables
 import ProphyModel.Properties.DocExamples
 import ProphyModel.Properties.C01
 import ProphyModel.Properties.C02
 import ProphyModel.Properties.C04
 import ProphyModel.Properties.C06
+import ProphyModel.Properties.C14
 import ProphyModel.Properties.C15
 import ProphyModel.Properties.C19
